@@ -60,6 +60,10 @@ func ModStmts() []Stmt {
 	add("replace", "replace a.com/x => \"..\\u002fesc\"\n")
 	add("replace", "replace a.com/x => \"../a//b\" // s\n")
 	add("replace", "replace a.com/x => \"./(\"\n")
+	add("replace", "replace a.com/x => \"./o'brien\"\n")
+	add("replace", "replace a.com/x => \"./say\\\"hi\\\"\" // s\n")
+	add("replace", "replace a.com/x => \"./back`tick\"\n")
+	add("replace", "replace a.com/x => \"./tab\\there\"\n")
 	add("replace", "replace (\n\ta.com/x => ./x\n\t// b\n\tb.com/y v1.0.0 => c.com/z v1.2.0 // s\n)\n")
 	addFix("replace", "replace a.com/x v1 => b.com/y v1.1\n")
 	// retract
@@ -96,6 +100,8 @@ func WorkStmts() []Stmt {
 	add("godebug", "godebug (\n\tpanicnil=1\n\tasynctimerchan=0 // s\n)\n")
 	add("use", "use ./a\n")
 	add("use", "use \"./dir with space\" // s\n")
+	add("use", "use \"./o'brien\"\n")
+	add("use", "use \"./say\\\"hi\\\"\"\n")
 	add("use", "use (\n\t./a\n\t// b\n\t../b // s\n)\n")
 	add("use", "// bb\nuse (\n\t./a\n\n\t./c\n)\n")
 	add("replace", "replace a.com/x => ../x\n")
